@@ -72,6 +72,13 @@ def run(ctx):
                            from_succ=nul, is_blocker=lambda x: x['k'] == 'call' and x.get('name') == 'LineReader::ReadLine')
         ctx.check('C08.N1', r is None, load.name, 'memchr:null-records:%s' % v, load.where(e),
                   'a line with a missing separator updates no entry')
+        # ... and only that line: the loader goes on with the next line (complete records may follow a torn one since
+        # ninja appends behind it), it does not stop reading
+        r = load.find_path(None, lambda x: x['k'] in ('ret', 'exit') or (x['k'] == 'call' and x.get('name') == 'fclose'),
+                           from_succ=nul, is_blocker=lambda x: x['k'] == 'call' and x.get('name') == 'LineReader::ReadLine')
+        ctx.check('C08.N1', r is None, load.name, 'memchr:null-stops-load:%s' % v, load.where(e),
+                  'a line with a missing separator is skipped and the next line is read',
+                  witness=None if r is None else {'blocks': r[0]})
     # the incomplete last line (no newline) is skipped
     le = None
     for bid, b in load.blocks.items():
@@ -234,6 +241,18 @@ def run(ctx):
             ctx.violation('C08.O2', f.name, 'entry:not-updated', f.loc, '%s does not update log entries' % f.name)
             continue
         first = max(firsts, key=lambda e: (e['_b'], -e['_i']))
+        if f is load:
+            # the later line of the file wins: once a complete record has been parsed (its output looked up in the
+            # table), nothing keeps the older entry - every way to the next line passes the stores
+            looked = [x for x in f.events('call') if lastname(x.get('name') or '').split('<')[0] == 'find' and mentions_field(x.get('recv'), 'BuildLog::entries_')]
+            ctx.check('C08.O2', len(looked) == 1, f.name, 'entry:lookup-sites', f.loc, 'Load looks each record\'s output up once')
+            for lk in looked:
+                for fld in ENTRY_FIELDS:
+                    r = f.find_path(lk, lambda x: x['k'] == 'call' and x.get('name') == nxt,
+                                    is_blocker=lambda x, fld=fld: (x['k'] == 'asg' and mentions_field(x['l'], fld)) or x['k'] == 'ret')
+                    ctx.check('C08.O2', r is None, f.name, 'entry:older-record-kept:%s' % fld.split('::')[-1], f.where(lk),
+                              'a record for an output already in the table replaces it (%s): the later line wins' % fld.split('::')[-1],
+                              witness=None if r is None else {'blocks': r[0]})
         for fld in ENTRY_FIELDS:
             r = f.find_path(None, lambda x: x['k'] == 'call' and x.get('name') == nxt and f.ev_reaches(first, x),
                             from_succ=first['_b'],
